@@ -185,6 +185,25 @@ def corner_point_values(patt, cells):
     return {v for i, v in enumerate(patt) if (i + 1, v + 1) in (common or set())}
 
 
+def cells_around_point(i, v):
+    """The four cells that have the point with index i and value v on a corner."""
+    px, py = i + 1, v + 1
+    return {(a, b) for a in (px - 1, px) for b in (py - 1, py)}
+
+
+def cells_on_side(i, v, direction):
+    """Those of the four cells whose centre is displaced from the point in the named direction
+    ('default' / 'none': no cell)."""
+    px, py = i + 1, v + 1
+    out = set()
+    for (a, b) in cells_around_point(i, v):
+        cx, cy = a + 0.5, b + 0.5
+        if (direction == "east" and cx > px) or (direction == "west" and cx < px) or \
+                (direction == "north" and cy > py) or (direction == "south" and cy < py):
+            out.add((a, b))
+    return out
+
+
 def ref_is_shaded_rect(shading, ll, ur):
     return all((x, y) in shading for x in range(ll[0], ur[0] + 1) for y in range(ll[1], ur[1] + 1))
 
